@@ -474,6 +474,65 @@ def do_replay(chk, path):
     return 1 if bad else 0
 
 
+def failed_issue_scenarios(chk):
+    """A request that fails before anything is sent (its arguments cannot be encoded) consumes its number for good: whatever was
+    issued while it was being prepared - by another thread, a finaliser, or code run while an argument is described - and
+    whatever is issued afterwards must still get its own answer (RpycLedger: SeqUnique, Routing).  Real threads, in-process pair."""
+    import rpyc
+
+    class Svc(rpyc.Service):
+        def exposed_echo(self, tag, *rest):
+            return tag
+    n = 0
+    for nested in (0, 1, 2):            # requests issued while the failing request's arguments are described
+        for after in (1, 2, 3):         # requests issued after the failure
+            for huge in (10 ** 6000, -(10 ** 5000)):
+                conn = rpyc.connect_thread(remote_service=Svc, config={"sync_request_timeout": 10})
+                try:
+                    echo = rpyc.async_(conn.root.echo)
+                    pending = {}
+
+                    class Described(object):
+                        @property
+                        def __name__(self):
+                            while len(pending) < nested:
+                                tag = "during%d" % len(pending)
+                                pending[tag] = echo(tag)
+                            return "described"
+                    failed = None
+                    try:
+                        echo("failing", Described(), huge)
+                    except Exception as ex:  # noqa
+                        failed = ex
+                    if failed is None or len(pending) != nested:
+                        chk.cov.setdefault("drift", []).append("failed-issue premise not met (nested=%d): %r" % (nested, failed))
+                        continue
+                    for i in range(after):
+                        pending["after%d" % i] = echo("after%d" % i)
+                    n += 1
+                    chk.evaluated()
+                    chk.distinct(("failed-issue", nested, after, huge > 0))
+                    bad = []
+                    for tag in sorted(pending):
+                        r = pending[tag]
+                        r.set_expiry(5)
+                        try:
+                            v = r.value
+                        except Exception as ex:  # noqa
+                            v = "%s" % type(ex).__name__
+                        if v != tag:
+                            bad.append("request %s ended with %r" % (tag, v))
+                    if bad:
+                        chk.violation("failed-issue:%d" % nested, "C08 after a request failed before being sent (%d request(s) issued "
+                                      "while its arguments were described, %d afterwards): %s" % (nested, after, "; ".join(bad)),
+                                      {"mode": "failed-issue", "nested": nested, "after": after})
+                    else:
+                        chk.validated()
+                finally:
+                    conn.close()
+    return n
+
+
 def main():
     chk = Check(PID)
     gc.disable()
@@ -497,6 +556,7 @@ def main():
         if i % 20 == 19:
             gc.collect()
     validate(chk, traces)
+    chk.cov["failed_issue_scenarios"] = failed_issue_scenarios(chk)
     # executions nobody scheduled: every connection of the repository's own tests, message by message, against RpycEndpoint
     from harness import suite_traces
     chans, summary, files = suite_traces.record(suite_traces.ALL_FILES)
